@@ -279,7 +279,13 @@ def term_str(t):
     if k == "ite":
         return "(%s?%s:%s)" % (term_str(t[1]), term_str(t[2]), term_str(t[3]))
     if k == "mix":
-        return "mix{" + ",".join(sorted(term_str(x) for x in t[1])) + "}"
+        names = {}
+        for x in t[1]:
+            if x[0] == "P":
+                names.setdefault(x[1], []).append(x)
+        whole = {nm for nm, xs in names.items() if len(xs) > 4}
+        parts = sorted(term_str(x) for x in t[1] if not (x[0] == "P" and x[1] in whole)) + sorted(whole)
+        return "mix{" + ",".join(parts) + "}"
     if k == "tt":
         return "f(" + ",".join(term_str(a) for a in t[1]) + ")"
     return str(t)
